@@ -44,6 +44,8 @@ def bookkeeping(ctx, rid):
     if shape is None:
         if isinstance(res, (ast.BinOp, ast.Constant, ast.Name, ast.Attribute)):
             ctx.violated(rid, fn, "the reported result is %s, not (matched bytes / examined bytes) * 100" % norm(res), stores[0])
+        elif isinstance(res, ast.Call) and norm(res.func) in ("round", "math.ceil", "ceil") and res.args and _ratio_times_100(res.args[0]) is not None:
+            ctx.violated(rid, fn, "the reported result is rounded (%s): a payload that does not match completely can be reported as 100" % norm(res), stores[0])
         else:
             # computed by a helper / another object: the accounting lives elsewhere and is not followed
             ctx.undecided(rid, fn, "the reported result is `%s`; the accounting behind it is not in this function and is not followed" % norm(res), stores[0])
@@ -116,7 +118,10 @@ def bookkeeping(ctx, rid):
     rs = ctx.prog.func("torrentfile.recheck:Checker.results")
     drains = [n for n in own_nodes(rs.node) if isinstance(n, ast.For) and any(t[0] == "pkg" and t[1] is fn for c in ast.walk(n.iter) if isinstance(c, ast.Call) for t in ctx.res.call_targets(c, rs))]
     if not drains:
-        drained = any(isinstance(n, ast.Call) and isinstance(n.func, ast.Name) and n.func.id in ("list", "tuple", "sum") for n in own_nodes(rs.node))
+        # consumers that run an iterator to its end (any()/all()/next() may stop early and do not count)
+        drained = any(isinstance(n, ast.Call) and norm(n.func) in ("list", "tuple", "sum", "sorted", "set", "max", "min", "deque", "collections.deque", "len")
+                      and n.args and any(isinstance(c, ast.Call) and any(t[0] == "pkg" and t[1] is fn for t in ctx.res.call_targets(c, rs)) for c in ast.walk(n.args[0]))
+                      for n in own_nodes(rs.node))
         ctx.decide(rid, rs, drained, "results() consumes the comparison generator", "results() does not run the comparison generator to its end", "drain")
     for d in drains:
         early = [x for st in d.body for x in ast.walk(st) if isinstance(x, (ast.Break, ast.Return))]
@@ -654,6 +659,50 @@ def absent_data(ctx, rid):
 
 
 # ------------------------------------------------------------------------------------------ R5 digest pairing
+def _presplit_lookup(ctx, fn, consts):
+    """The recorded hashes split once into a list, `self.H = [self.pieces[s:s + W] for s in range(0, len(self.pieces), W)]`,
+    and looked up as self.H[counter]: (lookup node, width W, start = counter * W), or (None, reason), or None if the
+    function does no such lookup."""
+    if fn.cls is None or not fn.self_name:
+        return None
+    for n in own_nodes(fn.node):
+        if not (isinstance(n, ast.Subscript) and not isinstance(n.slice, ast.Slice) and isinstance(n.ctx, ast.Load) and isinstance(n.value, ast.Attribute)
+                and isinstance(n.value.value, ast.Name) and n.value.value.id == fn.self_name):
+            continue
+        defs = []
+        for c in ctx.prog.mro(fn.cls):
+            for m in c.methods.values():
+                for x in own_nodes(m.node):
+                    if isinstance(x, ast.Assign) and any(isinstance(t, ast.Attribute) and t.attr == n.value.attr and isinstance(t.value, ast.Name) and t.value.id == m.self_name for t in x.targets):
+                        defs.append(x.value)
+        comp = [d for d in defs if isinstance(d, ast.ListComp) and isinstance(d.elt, ast.Subscript) and isinstance(d.elt.slice, ast.Slice)
+                and isinstance(d.elt.value, ast.Attribute) and d.elt.value.attr == "pieces"]
+        if not comp:
+            continue
+        if len(defs) != 1 or len(comp[0].generators) != 1 or comp[0].generators[0].ifs or not isinstance(comp[0].generators[0].target, ast.Name):
+            return None, "the list of recorded hashes %s is built in a way that is not understood" % norm(n.value)
+        gen, elt = comp[0].generators[0], comp[0].elt
+        v = gen.target.id
+        rng = gen.iter
+        if not (isinstance(rng, ast.Call) and isinstance(rng.func, ast.Name) and rng.func.id == "range" and len(rng.args) == 3):
+            return None, "the recorded hashes are split over `%s`, not over range(0, len(pieces), width)" % norm(rng)
+        start, stop, step = (lin_of(a, consts) for a in rng.args)
+        lo_ = lin_of(elt.slice.lower, consts) if elt.slice.lower is not None else None
+        hi_ = lin_of(elt.slice.upper, consts) if elt.slice.upper is not None else None
+        if None in (start, stop, step, lo_, hi_) or lo_ != Lin.atom(v) or not start.is_const() or start.c != 0 or not step.is_const() \
+                or norm(rng.args[1]) != "len(%s)" % norm(elt.value):
+            return None, "the split of the recorded hashes (`%s`) is outside the forms this rule reads" % norm(comp[0])[:80]
+        width = hi_.sub(lo_)
+        idx = lin_of(n.slice, consts)
+        if idx is None:
+            return None, "the index into the list of recorded hashes is not linear: %s" % norm(n)
+        if not (width.is_const() and width.c == step.c):
+            # entries overlap or leave gaps: entry k is not the k-th hash
+            return n, width, Lin.atom("<split stride %s differs from entry width %s>" % (step, width))
+        return n, width, idx.scale(step.c)
+    return None
+
+
 def digest_pairing(ctx, rid):
     consts = module_consts(ctx.prog.modules["torrentfile.recheck"])
     sites = 0
@@ -663,13 +712,8 @@ def digest_pairing(ctx, rid):
         g = C.cfg_of(fn)
         # recorded-hash slice  X[lo:hi]
         slices = [n for n in own_nodes(fn.node) if isinstance(n, ast.Subscript) and isinstance(n.slice, ast.Slice) and isinstance(n.ctx, ast.Load)
-                  and isinstance(n.value, ast.Attribute) and n.value.attr == "pieces"]
-        if len(slices) != 1:
-            ctx.undecided(rid, fn, "recorded-hash slice not found")
-            continue
-        sl = slices[0]
-        sites += 1
-        env = {}
+                  and isinstance(n.value, ast.Attribute) and n.value.attr == "pieces"
+                  and not (n.slice.lower is None and isinstance(n.slice.upper, ast.Constant) and n.slice.upper.value == 0)]     # x[:0] is the empty stand-in, not a hash
 
         def expand(e, depth=0):
             if isinstance(e, ast.Name) and depth < 5:
@@ -677,12 +721,25 @@ def digest_pairing(ctx, rid):
                 if len(vals) == 1:
                     return expand(vals[0], depth + 1)
             return e
-        lo = lin_of(sl.slice.lower, consts, lambda e: expand(e)) if sl.slice.lower is not None else Lin.const(0)
-        hi = lin_of(sl.slice.upper, consts, lambda e: expand(e)) if sl.slice.upper is not None else None
-        if lo is None or hi is None:
-            ctx.undecided(rid, fn, "slice bounds not linear: %s" % norm(sl), sl)
+        presplit = _presplit_lookup(ctx, fn, consts) if not slices else None
+        if presplit is not None and presplit[0] is None:
+            ctx.undecided(rid, fn, presplit[1])
             continue
-        width = hi.sub(lo)
+        if presplit is not None:
+            sl, width, lo = presplit
+            sites += 1
+        elif len(slices) != 1:
+            ctx.undecided(rid, fn, "recorded-hash slice not found")
+            continue
+        else:
+            sl = slices[0]
+            sites += 1
+            lo = lin_of(sl.slice.lower, consts, lambda e: expand(e)) if sl.slice.lower is not None else Lin.const(0)
+            hi = lin_of(sl.slice.upper, consts, lambda e: expand(e)) if sl.slice.upper is not None else None
+            if lo is None or hi is None:
+                ctx.undecided(rid, fn, "slice bounds not linear: %s" % norm(sl), sl)
+                continue
+            width = hi.sub(lo)
         ok_w = width.is_const() and width.c == H
         ctx.decide(rid, fn, ok_w, "recorded hash slice is %d bytes wide = digest size of %s" % (H, algo),
                    "recorded hash slice is %s bytes wide; the computed side is %s (%d bytes): computed and recorded hashes can never be equal / are misaligned" % (width, algo, H), sl)
@@ -700,7 +757,7 @@ def digest_pairing(ctx, rid):
             # slice is taken before the increment
             if incs:
                 sn, inn = C.stmt_node(ctx, fn, sl), C.stmt_node(ctx, fn, incs[0])
-                ctx.decide(rid, fn, g.dominates(sn, inn) and sn is not inn, "the slice is taken before the counter advances",
+                ctx.decide(rid, fn, sn is not inn and sn not in g.reachable(inn), "the slice is taken before the counter advances",
                            "the counter advances before the slice is taken: every comparison is shifted by one piece", norm(sl) + " :: order")
         # computed side uses the matching hash function
         if algo == "sha1":
